@@ -15,13 +15,14 @@ CLAIM = {
     'technique': 'boolean-formula extraction + exhaustive valuation (operator duality); must-pass-through / must-not-pass on the CFG',
 }
 UNITS = ['runtime/session.cpp']
+CONF_UNITS = ['runtime/configuration.cpp']
 EXPLANATION = (
     "Decided: R23.1 operator!= is the pointwise negation of operator== for every consistent valuation of (same object, sender "
     "equal, target equal); R23.2 in handle_logon: (a) SessionID built as (beginStr, inbound TargetCompID, inbound SenderCompID); "
     "(b) initiator mismatch decided by `id != _sid`, acceptor mismatch by `_sci() != tci()`; under _enforce_compids each leads on "
     "every path to stop(), state terminated, return false, with no Session::send reachable; (c) client-list miss and failed "
     "authenticate likewise; (d) reset flag => both counters := 1 else recover_seqnums, before the answer is sent; (e) the answer "
-    "Logon's HeartBtInt argument is the field read from the inbound message. R23.3 an acceptor's atomic_init precedes _connection->start() and does not follow it; R23.4 SessionConfig passes each configuration getter in the position of the LoginParameters constructor parameter that initialises the corresponding member. R23.5 the user-written copy operations of LoginParameters carry every member from the same member. NOT decided: behaviour for concrete CompID strings.")
+    "Logon's HeartBtInt argument is the field read from the inbound message. R23.3 an acceptor's atomic_init precedes _connection->start() and does not follow it; R23.4 SessionConfig passes each configuration getter in the position of the LoginParameters constructor parameter that initialises the corresponding member. R23.6 create_clients treats an entry without an `active` attribute as active (frozen default). R23.5 the user-written copy operations of LoginParameters carry every member from the same member. NOT decided: behaviour for concrete CompID strings.")
 
 S = 'FIX8::Session::'
 SID = 'FIX8::SessionID::'
@@ -336,6 +337,24 @@ def run(ctx):
                                  'a session configured to enforce CompIDs accepts a Logon whose CompIDs do not mirror its own (or the reverse)', min_fields=10)
     if n_lp == 0:
         ctx.ok('R23.5', 'FIX8::LoginParameters#carries-every-member', 'include/fix8/session.hpp:%d' % _r.get('l', 0), 'LoginParameters has no user-written copy operations')
+    # ---------------- R23.6 the acceptor's client list: handle_logon refuses an unlisted or inactive sender only while the list is non-empty, so which entries
+    # create_clients puts into it is part of the acceptance rule.  An entry is active unless it says otherwise (frozen: the documented form
+    # `<client name=.. target_comp_id=.. ip=.. active="true"/>` and the sample configurations omit the attribute): every read of "active" there defaults to true.
+    progc = Program(CONF_UNITS)
+    ctx.units.update(CONF_UNITS)
+    ccl = progc.fn1('FIX8::Configuration::create_clients')
+    ctx.saw(ccl)
+    acts = [c for c in ccl.calls() if c.callee is not None and c.callee.get('n') in ('FindAttr', 'find_or_default') and len(c.args) >= 2 and
+            any(x.k == 'StringLiteral' and x.r.get('s') == 'active' for x in c.args[-2].walk())]
+    ctx.need(acts, 'create_clients: no read of the "active" attribute found')
+    for i_, c in enumerate(acts):
+        dv = c.args[-1].strip(casts=True).value
+        ctx.check(dv == 1, 'R23.6', 'FIX8::Configuration::create_clients#active-defaults-true@%d' % i_, c.loc,
+                  'a client entry without an `active` attribute counts as active',
+                  '`%s`: a client entry that does not spell out active="true" is left out of the client list; with every entry left out the list is empty and '
+                  'handle_logon skips the client check altogether (unlisted and disabled senders log on), with some left out listed clients are refused' % c.text()[:60])
+    ins = [c for c in ccl.calls() if c.callee is not None and c.callee.get('n') == 'insert']
+    ctx.check(len(ins) >= 1, 'R23.6', 'FIX8::Configuration::create_clients#inserts', ccl.loc, 'accepted entries are inserted into the client map')
     ctx.floor('R23.3', 1)
     ctx.floor('R23.4', 1)
     ctx.floor('R23.1', 1)
